@@ -1,5 +1,7 @@
 import OpcuaVerif.Lemmas.EncRT
 import OpcuaVerif.Lemmas.EncSoundRec
+import OpcuaVerif.Lemmas.EncSchemaRT
+import OpcuaVerif.Lemmas.EncMono
 
 /-!
 C03 — Configured decoding limits are enforced exactly.  Property theorems only.
@@ -190,5 +192,45 @@ example : (decDV { Opts.default with maxStr := 1 } 65535 true 10 0 (encDV true s
 /-- a chunk header `MSG F size=20 chan=1` -/
 example : decChunkHeader [77, 83, 71, 70, 20, 0, 0, 0, 1, 0, 0, 0, 9] = .ok ([77, 83, 71], 70, 20, 1) [9] := by
   rfl
+
+/-! ### arrays of generated structures (`read_array`, schema-directed decoder) -/
+
+/-- an array field of any generated structure (any element schema) that declares more than
+`max_array_length` elements is rejected before allocation, whatever follows -/
+theorem struct_array_over_limit (o : Opts) (cap fuel : Nat) (t : Ty) (d n : Nat) (rest : Bytes)
+    (hn : n < 2147483648) (hover : n > o.maxArr) : decS o cap fuel (.arr t) d (le32 n ++ rest) = .err := by
+  simp only [decS, rd32_le32 n rest (by omega)]
+  rw [if_neg (by omega), if_neg (by omega), if_pos hover]
+
+/-- … and every valid value of every schema whose arrays, strings and byte strings are within the
+limits is accepted and exactly consumed (the generic round trip of C01) -/
+theorem struct_within_limits_accepted (o : Opts) (cap : Nat) (hc : CapOK o cap) (t : Ty) (v : SVal)
+    (fuel : Nat) (r : Bytes) (hw : WFS o 0 t v) (hf : frS v ≤ fuel) :
+    decS o cap fuel t 0 (encS t v ++ r) = .ok (normS v) r :=
+  rtS o cap fuel hc v t 0 r hw hf
+
+/-! ### "exactly": over the limit ⇒ rejected, wherever it is nested -/
+
+/-- **Over-limit values are rejected**: take any value `x` that is valid under some larger limits
+`o'` (so that it has an encoding the decoder could accept at all).  If `x` contains — at any nesting
+position — a string, byte string, array or dimension array longer than the maximum configured in
+`o`, then decoding its encoding under `o` does not succeed, whatever follows it in the stream. -/
+theorem over_limit_rejected (o o' : Opts) (hle : OptsLe o o') (cap : Nat) (hc : CapOK o' cap) (x : V)
+    (fuel : Nat) (r : Bytes) (hw : WFV o' 0 x) (hf : frV x ≤ fuel) (hover : ¬ InV o (normV x)) :
+    ∀ v r', decV o cap true fuel 0 (encV true x ++ r) ≠ .ok v r' := by
+  intro v r' hd
+  have h1 := (mono_all o o' hle cap fuel).1 0 _ v r' hd
+  have h2 := (rtV o' cap hc x).2 fuel 0 r hw hf
+  rw [h2] at h1
+  injection h1 with hv _
+  have h3 := limits_sound_variant o cap true fuel 0 _ v r' hd
+  rw [← hv] at h3
+  exact hover h3
+
+/-- non-vacuity of `over_limit_rejected`: a 5-byte string inside a DataValue inside a Variant is
+over `maxStr = 4` and valid under the default limits -/
+example : ¬ InV { Opts.default with maxStr := 4 }
+    (normV (.dv (.mk1 (.sc (.str (some [97, 98, 99, 100, 101]))) ⟨none, none, none, none, none⟩))) := by
+  simp [normV, normDV, normScalar, InV, InDV, InScalar, InStr, Opts.default]
 
 end OpcuaVerif.C03
